@@ -825,6 +825,13 @@ def words_of(tree, lists):
             be(e[1])
             ve(e[2])
             ve(e[3])
+        elif e[0] == 'ret':
+            if e[1][0] == 'bool':
+                be(e[1][1])
+        else:
+            for f in e[1]:
+                if f[0] == 'bool':
+                    be(f[1])
     ve(tree)
     seen, res = set(), []
     for w in out:
@@ -853,6 +860,13 @@ def regexes_of(tree):
             be(e[1])
             ve(e[2])
             ve(e[3])
+        elif e[0] == 'ret':
+            if e[1][0] == 'bool':
+                be(e[1][1])
+        else:
+            for f in e[1]:
+                if f[0] == 'bool':
+                    be(f[1])
     ve(tree)
     return out
 
@@ -969,7 +983,13 @@ def generate():
         out.append((os.path.join(GEN, module_name(t['dir']) + '.lean'), culture_text(t)))
     idx = HEADER % ('cultureconfig', 'the culture configuration classes of the working tree')
     idx += ''.join('import RTV.Gen.%s\n' % module_name(t['dir']) for t in ts)
+    idx += 'import RTV.Gen.CharTables\nimport RTV.Gen.ReTables\n'
     idx += 'namespace RTV.Gen.CC\nopen RTV.CultureCfg\n\n'
+    idx += ('/-- the character tables of the running interpreter (`str.isspace`, `str.lower`) and of the `regex` engine -/\n'
+            'def tabs : Tabs where\n'
+            '  isSpace c := RTV.Py.inRangesArr RTV.Gen.spaceRanges c\n'
+            '  lowerC c := RTV.Preprocess.lowerFull RTV.Gen.lowerPairs RTV.Gen.lowerExpanding c\n'
+            '  re := RTV.Gen.reTables\n\n')
     idx += '/-- (culture, culture directory, translated methods) -/\n'
     idx += 'def cultures : List (String × String × List Method) := [\n%s]\n\n' % ',\n'.join(
         '  ("%s", "%s", %s.methods)' % (t['culture'], t['dir'], t['dir'].capitalize()) for t in ts)
